@@ -370,32 +370,81 @@ func (e *Env) selectField(base TV, name string) TV {
 			return TV{IntLit(int64(len(ch.Recs))), nil}
 		}
 		if name == "called" {
-			return TV{BoolLit(len(ch.Recs) > 0), nil}
+			c := False
+			for _, r := range ch.Recs {
+				if r.Cond == nil {
+					c = True
+				} else {
+					c = Or(c, r.Cond)
+				}
+			}
+			return TV{c, nil}
 		}
 		if len(ch.Recs) == 0 {
-			// never called on this path: an unspecified value (clauses should guard with .called)
 			efail("$%s.%s: the function was not called on this path (guard with $%s.called)", ch.Name, name, ch.Name)
 		}
-		rec := ch.Recs[len(ch.Recs)-1]
-		if name == "ret" {
-			if rec.Sig.Results().Len() == 1 {
-				return TV{rec.Ret, rec.Sig.Results().At(0).Type()}
+		field := func(rec CallRec) (Val, types.Type) {
+			if name == "ret" {
+				if rec.Sig.Results().Len() == 1 {
+					return rec.Ret, rec.Sig.Results().At(0).Type()
+				}
+				return rec.Ret, rec.Sig.Results()
 			}
-			return TV{rec.Ret, rec.Sig.Results()}
+			if strings.HasPrefix(name, "ret") {
+				var k int
+				fmt.Sscanf(name[3:], "%d", &k)
+				if tv, ok := rec.Ret.(*TupleV); ok && k < len(tv.Elems) {
+					return tv.Elems[k], rec.Sig.Results().At(k).Type()
+				}
+			}
+			for i, p := range rec.Params {
+				if p.Name() == name {
+					return rec.Args[i], p.Type()
+				}
+			}
+			efail("$%s has no field %s", ch.Name, name)
+			return nil, nil
 		}
-		if strings.HasPrefix(name, "ret") {
-			var k int
-			fmt.Sscanf(name[3:], "%d", &k)
-			if tv, ok := rec.Ret.(*TupleV); ok && k < len(tv.Elems) {
-				return TV{tv.Elems[k], rec.Sig.Results().At(k).Type()}
+		// the last record whose condition holds
+		last := ch.Recs[len(ch.Recs)-1]
+		v, t := field(last)
+		allUncond := true
+		for _, r := range ch.Recs {
+			if r.Cond != nil {
+				allUncond = false
 			}
 		}
-		for i, p := range rec.Params {
-			if p.Name() == name {
-				return TV{rec.Args[i], p.Type()}
-			}
+		if allUncond {
+			return TV{v, t}
 		}
-		efail("$%s has no field %s", ch.Name, name)
+		toT := func(rec CallRec, v Val, t types.Type) *Term {
+			if tt, ok := v.(*Term); ok {
+				return tt
+			}
+			st := rec.St
+			if st == nil {
+				st = e.cur
+			}
+			if _, isTuple := v.(*TupleV); isTuple {
+				efail("$%s.%s: tuple-valued field of a conditionally recorded call (select a component)", ch.Name, name)
+			}
+			return e.ex.asTerm(st, v, t)
+		}
+		acc := toT(last, v, t)
+		for k := len(ch.Recs) - 2; k >= 0; k-- {
+			r := ch.Recs[k]
+			later := False
+			for _, l := range ch.Recs[k+1:] {
+				if l.Cond == nil {
+					later = True
+				} else {
+					later = Or(later, l.Cond)
+				}
+			}
+			vk, tk := field(r)
+			acc = Ite(later, acc, toT(r, vk, tk))
+		}
+		return TV{acc, t}
 	}
 	if it, ok := base.V.(*IterV); ok {
 		switch name {
@@ -742,6 +791,11 @@ func (e *Env) evalCall(x *Expr) TV {
 						if fn := sp.Func(f.Val); fn != nil {
 							return e.callGo(fn, nil, args)
 						}
+					}
+					// type conversion T(x)
+					if tn, ok := pkg.Scope().Lookup(f.Val).(*types.TypeName); ok && len(args) == 1 {
+						v := e.eval(args[0])
+						return TV{v.V, tn.Type()}
 					}
 					// external package function: uninterpreted, same naming as the executor
 					return e.callExternal(pkg, f.Val, args)
